@@ -139,3 +139,29 @@ func FreshDir(dir string) error {
 	os.RemoveAll(dir)
 	return os.MkdirAll(dir, 0o755)
 }
+
+// FeedFifo writes data into the named pipe at path as soon as a reader opens it. stop releases the writer if
+// nobody ever opened the pipe (and waits for it).
+func FeedFifo(path, data string) (stop func()) {
+	done := make(chan struct{})
+	go func() {
+		defer close(done)
+		f, err := os.OpenFile(path, os.O_WRONLY, 0)
+		if err != nil {
+			return
+		}
+		f.WriteString(data)
+		f.Close()
+	}()
+	return func() {
+		select {
+		case <-done:
+			return
+		default:
+		}
+		if r, err := os.OpenFile(path, os.O_RDONLY|syscall.O_NONBLOCK, 0); err == nil {
+			<-done
+			r.Close()
+		}
+	}
+}
